@@ -20,9 +20,19 @@ type rw struct {
 	body   int
 }
 
-func (w *rw) Header() http.Header         { return w.h }
-func (w *rw) WriteHeader(s int)           { if w.status == -1 { w.status = s } }
-func (w *rw) Write(p []byte) (int, error) { if w.status == -1 { w.status = 200 }; w.body += len(p); return len(p), nil }
+func (w *rw) Header() http.Header { return w.h }
+func (w *rw) WriteHeader(s int) {
+	if w.status == -1 {
+		w.status = s
+	}
+}
+func (w *rw) Write(p []byte) (int, error) {
+	if w.status == -1 {
+		w.status = 200
+	}
+	w.body += len(p)
+	return len(p), nil
+}
 
 type reqT struct {
 	method string
@@ -436,6 +446,69 @@ func famServeWant(want ...string) family {
 		w := make(SL, len(want))
 		for i, s := range want {
 			w[i] = Y(s)
+		}
+		emitOne := func(c *cors.Config, debug bool, m *cors.Middleware, q reqT, kind string) {
+			pre := http.Header{}
+			out := serveOnce(m, q, pre)
+			o.emit("serve", len(out.hdrs["Access-Control-Allow-Origin"]) > 0 || isPreflightReq(q), kind,
+				KV("cfg", cfgSX(c)), KV("debug", Bool(debug)), KV("req", q.sx()), KV("pre", hdrSX(pre)),
+				KV("impl", out.sx()), KV("want", w), oracleForCfg(c))
+			if out.panicked || out.calls > 1 || !out.sameArgs || (!out.delegated && out.body != 0) {
+				o.emitDirect("serve-runtime", false, "panic/calls/identity/body: "+str(q.sx()))
+			}
+		}
+		// deterministic tree stress (1): one host under several schemes with several ports each, in three insertion
+		// orders; every (scheme, port) pair in play is presented, as an actual request and as a preflight
+		for variant := 0; variant < 3; variant++ {
+			schemes := []string{"app", "http", "https", "tauri", "zz"}
+			ports := []string{"", ":3000", ":8443", ":9000"}
+			var pats []string
+			for si, sc := range schemes {
+				pats = append(pats, sc+"://localhost"+ports[si%len(ports)])
+			}
+			for si, sc := range schemes { // second and third ports, after every scheme has its list
+				if si%2 == variant%2 {
+					pats = append(pats, sc+"://localhost"+ports[(si+1)%len(ports)])
+				}
+				if si == 2 {
+					pats = append(pats, sc+"://localhost"+ports[(si+2)%len(ports)])
+				}
+			}
+			switch variant {
+			case 1:
+				for i, j := 0, len(pats)-1; i < j; i, j = i+1, j-1 {
+					pats[i], pats[j] = pats[j], pats[i]
+				}
+			case 2:
+				pats = r.perm(pats)
+			}
+			c := &cors.Config{Origins: pats, Credentialed: true, Methods: []string{"PUT"}, ExtraConfig: cors.ExtraConfig{DangerouslyTolerateInsecureOrigins: true}}
+			for _, debug := range []bool{false, true} {
+				m := newMW(c, debug)
+				if m == nil {
+					continue
+				}
+				for _, sc := range schemes {
+					for _, pt := range append(ports, ":1") {
+						og := sc + "://localhost" + pt
+						emitOne(c, debug, m, reqT{method: "GET", hdrs: http.Header{"Origin": {og}}}, "tree-stress/schemes-ports")
+						emitOne(c, debug, m, reqT{method: "OPTIONS", hdrs: http.Header{"Origin": {og}, "Access-Control-Request-Method": {"PUT"}}}, "tree-stress/schemes-ports")
+					}
+				}
+			}
+		}
+		// deterministic tree stress (2): a bracketed Origin carries any byte; every byte value is placed in front of, inside
+		// and behind a complete allowed host
+		{
+			c := &cors.Config{Origins: []string{"https://example.com", "https://api.example.com:8443", "https://*.example.org"}, Credentialed: true}
+			m := newMW(c, false)
+			for b := 0; m != nil && b < 256; b++ {
+				bs := string([]byte{byte(b)})
+				for _, og := range []string{"https://[" + bs + "example.com]", "https://[evil.test" + bs + "example.com]", "https://[example.com" + bs + "]",
+					"https://[" + bs + "api.example.com]:8443", "https://[exam" + bs + "ple.com]", "https://[a" + bs + "example.org]", "https://[" + bs + ".example.org]"} {
+					emitOne(c, false, m, reqT{method: "GET", hdrs: http.Header{"Origin": {og}}}, "tree-stress/bracket-bytes")
+				}
+			}
 		}
 		for i := 0; i < ncfg; i++ {
 			var c *cors.Config
